@@ -491,13 +491,31 @@ func (w *World) TakeFetchLog() []string {
 	return out
 }
 
-// FetchKey is the fetch-log key of a tagged module version.
+// FetchKey is the fetch-log key of a module version (tagged, or a pseudo-version).
 func (w *World) FetchKey(m Req) string {
-	t := w.tags[m.Path][m.Version]
-	if t == nil {
-		return "?"
+	if t := w.tags[m.Path][m.Version]; t != nil {
+		return fmt.Sprintf("%s/%s@%d", t.repo.spec.Addr, t.tag.Dir, t.rev.idx)
 	}
-	return fmt.Sprintf("%s/%s@%d", t.repo.spec.Addr, t.tag.Dir, t.rev.idx)
+	if module.IsPseudoVersion(m.Version) {
+		if id, err := module.PseudoVersionRev(m.Version); err == nil {
+			if repo, dir := w.repoOf(m.Path); repo != nil {
+				if rev := repo.lookup(id); rev != nil {
+					return fmt.Sprintf("%s/%s@%d", repo.spec.Addr, dir, rev.idx)
+				}
+			}
+		}
+	}
+	return "?"
+}
+
+// VersionAt is the version that names directory content at a revision: the tag sitting on
+// it, else the pseudo-version (on the closest tagged ancestor) of that revision.
+func (w *World) VersionAt(p string, rev int) string {
+	repo, _ := w.repoOf(p)
+	if repo == nil || rev < 1 || rev > len(repo.revs) {
+		return ""
+	}
+	return w.refVersion(p, repo.revs[rev-1])
 }
 
 // Paths lists all module paths of the universe (sorted).
